@@ -2,7 +2,7 @@ package main
 
 // C16 correspondence: the script language of coq/extract/cmds_omap.ml run on the REAL generated
 // collections.  `omap <ops>` runs the script on catalog.Servers, catalog.Tags and
-// directive.Directives (same template, three instantiations) and prints the observable results;
+// directive.Directives (same template), catalog.UserRules and catalog.Interactions (five of the six instantiations) and prints the observable results;
 // if the three disagree the line says so.  `oset <init> <ops>` runs on catalog.StringSet.
 
 import (
@@ -41,6 +41,8 @@ type omapInst[K comparable, V any] struct {
 	payload func(V) string
 	// payload of a value as it appears in the MarshalJSON output
 	jsonPayload func(json.RawMessage) (string, error)
+	// Find of the instantiation (its result type differs per instantiation)
+	find func(func(K, V) bool) (K, V, bool)
 }
 
 var errStop = errors.New("stop")
@@ -152,6 +154,43 @@ func runOmapScript[K comparable, V any](in omapInst[K, V], script string) string
 			var kvs [][2]string
 			_ = in.m.EachReverse(func(k K, v V) error { kvs = append(kvs, [2]string{in.keyText(k), in.payload(v)}); return nil })
 			out = append(out, pairsText(kvs))
+		case (f[0] == "X" || f[0] == "Y" || f[0] == "W") && len(f) == 2:
+			var kvs [][2]string
+			at := arg(1)
+			cb := func(k K, v V) error {
+				kvs = append(kvs, [2]string{in.keyText(k), in.payload(v)})
+				if (f[0] == "W" && in.payload(v) == at) || (f[0] != "W" && in.keyText(k) == at) {
+					return errStop
+				}
+				return nil
+			}
+			var err error
+			if f[0] == "Y" {
+				err = in.m.EachReverse(cb)
+			} else {
+				err = in.m.Each(cb)
+			}
+			switch {
+			case err == nil:
+				out = append(out, "full:"+pairsText(kvs))
+			case errors.Is(err, errStop):
+				out = append(out, "stop:"+pairsText(kvs))
+			default:
+				out = append(out, "other-error:"+err.Error())
+			}
+		case (f[0] == "N" || f[0] == "V") && len(f) == 2:
+			at := arg(1)
+			k, v, ok := in.find(func(k K, v V) bool {
+				if f[0] == "N" {
+					return in.keyText(k) == at
+				}
+				return in.payload(v) == at
+			})
+			if ok {
+				out = append(out, "found:"+hxs(in.keyText(k))+"="+hxs(in.payload(v)))
+			} else {
+				out = append(out, "notfound")
+			}
 		case f[0] == "M" && len(f) == 1:
 			b, err := in.m.MarshalJSON()
 			if err != nil {
@@ -203,8 +242,13 @@ func jsonField(name string) func(json.RawMessage) (string, error) {
 }
 
 func newServersInst() omapInst[string, *catalog.Server] {
+	m := &catalog.Servers{}
 	return omapInst[string, *catalog.Server]{
-		m:           &catalog.Servers{},
+		m: m,
+		find: func(p func(string, *catalog.Server) bool) (string, *catalog.Server, bool) {
+			it, ok := m.Find(p)
+			return it.Key, it.Value, ok
+		},
 		key:         func(s string) string { return s },
 		keyText:     func(s string) string { return s },
 		val:         func(_, p string) *catalog.Server { return &catalog.Server{BaseUrl: p} },
@@ -214,8 +258,13 @@ func newServersInst() omapInst[string, *catalog.Server] {
 }
 
 func newTagsInst() omapInst[catalog.TagName, *catalog.Tag] {
+	m := &catalog.Tags{}
 	return omapInst[catalog.TagName, *catalog.Tag]{
-		m:           &catalog.Tags{},
+		m: m,
+		find: func(p func(catalog.TagName, *catalog.Tag) bool) (catalog.TagName, *catalog.Tag, bool) {
+			it, ok := m.Find(p)
+			return it.Key, it.Value, ok
+		},
 		key:         func(s string) catalog.TagName { return catalog.TagName(s) },
 		keyText:     func(k catalog.TagName) string { return string(k) },
 		val:         func(k, p string) *catalog.Tag { return catalog.NewTag(k, p) },
@@ -225,13 +274,67 @@ func newTagsInst() omapInst[catalog.TagName, *catalog.Tag] {
 }
 
 func newDirectivesInst() omapInst[string, *directive.Directive] {
+	m := &directive.Directives{}
 	return omapInst[string, *directive.Directive]{
-		m:           &directive.Directives{},
+		m: m,
+		find: func(p func(string, *directive.Directive) bool) (string, *directive.Directive, bool) {
+			it, ok := m.Find(p)
+			return it.Key, it.Value, ok
+		},
 		key:         func(s string) string { return s },
 		keyText:     func(s string) string { return s },
 		val:         func(_, p string) *directive.Directive { return &directive.Directive{Annotation: p} },
 		payload:     func(v *directive.Directive) string { return v.Annotation },
 		jsonPayload: jsonField("Annotation"),
+	}
+}
+
+func newUserRulesInst() omapInst[string, *catalog.UserRule] {
+	m := &catalog.UserRules{}
+	return omapInst[string, *catalog.UserRule]{
+		m: m,
+		find: func(p func(string, *catalog.UserRule) bool) (string, *catalog.UserRule, bool) {
+			it, ok := m.Find(p)
+			return it.Key, it.Value, ok
+		},
+		key:         func(s string) string { return s },
+		keyText:     func(s string) string { return s },
+		val:         func(_, p string) *catalog.UserRule { return &catalog.UserRule{Annotation: p} },
+		payload:     func(v *catalog.UserRule) string { return v.Annotation },
+		jsonPayload: jsonField("annotation"),
+	}
+}
+
+// a key type of the harness's own for catalog.Interactions (the library's key types have no exported constructor)
+type scriptInteractionID string
+
+func (s scriptInteractionID) Protocol() catalog.Protocol   { return catalog.HTTP }
+func (s scriptInteractionID) Path() catalog.Path           { return catalog.Path("/" + string(s)) }
+func (s scriptInteractionID) String() string               { return string(s) }
+func (s scriptInteractionID) MarshalText() ([]byte, error) { return []byte(s), nil }
+
+func newInteractionsInst() omapInst[catalog.InteractionID, catalog.Interaction] {
+	m := &catalog.Interactions{}
+	return omapInst[catalog.InteractionID, catalog.Interaction]{
+		m: m,
+		find: func(p func(catalog.InteractionID, catalog.Interaction) bool) (catalog.InteractionID, catalog.Interaction, bool) {
+			it, ok := m.Find(p)
+			return it.Key, it.Value, ok
+		},
+		key:     func(s string) catalog.InteractionID { return scriptInteractionID(s) },
+		keyText: func(k catalog.InteractionID) string { return k.String() },
+		val: func(_, p string) catalog.Interaction {
+			q := p
+			return &catalog.HTTPInteraction{Annotation: &q}
+		},
+		payload: func(v catalog.Interaction) string {
+			h, ok := v.(*catalog.HTTPInteraction)
+			if !ok || h == nil || h.Annotation == nil {
+				return "<no value>"
+			}
+			return *h.Annotation
+		},
+		jsonPayload: jsonField("annotation"),
 	}
 }
 
@@ -278,8 +381,10 @@ func init() {
 		rs := runOmapScript(newServersInst(), a[0])
 		rt := runOmapScript(newTagsInst(), a[0])
 		rd := runOmapScript(newDirectivesInst(), a[0])
-		if rs != rt || rs != rd {
-			return "INSTANCES-DIFFER servers=" + rs + " tags=" + rt + " directives=" + rd
+		ru := runOmapScript(newUserRulesInst(), a[0])
+		ri := runOmapScript(newInteractionsInst(), a[0])
+		if rs != rt || rs != rd || rs != ru || rs != ri {
+			return "INSTANCES-DIFFER servers=" + rs + " tags=" + rt + " directives=" + rd + " userrules=" + ru + " interactions=" + ri
 		}
 		return rs
 	}
@@ -291,6 +396,10 @@ func init() {
 			return runOmapScript(newTagsInst(), a[1])
 		case "directives":
 			return runOmapScript(newDirectivesInst(), a[1])
+		case "userrules":
+			return runOmapScript(newUserRulesInst(), a[1])
+		case "interactions":
+			return runOmapScript(newInteractionsInst(), a[1])
 		}
 		return "bad-instance"
 	}
